@@ -52,6 +52,15 @@ def constructors():
     return [
         ('classical', lambda A, **kw: pyamg.ruge_stuben_solver(sp.csr_array(A), **kw), True, 'transpose'),
         ('classical-pmis', lambda A, **kw: pyamg.ruge_stuben_solver(sp.csr_array(A), CF='PMIS', **kw), True, 'transpose'),
+        ('classical-cljp', lambda A, **kw: pyamg.ruge_stuben_solver(sp.csr_array(A), CF='CLJP', **kw), True, 'transpose'),
+        # a strength threshold under which (almost) nothing is strongly connected: CLJP / PMISc then make every point a
+        # C point, RS every point an F point -- both are "coarsening stalls"
+        ('classical-cljp-nostrong', lambda A, **kw: pyamg.ruge_stuben_solver(
+            sp.csr_array(A), CF='CLJP', strength=('symmetric', {'theta': 0.9}), **kw), True, 'transpose'),
+        ('classical-pmisc-nostrong', lambda A, **kw: pyamg.ruge_stuben_solver(
+            sp.csr_array(A), CF='PMISc', strength=('symmetric', {'theta': 0.9}), **kw), True, 'transpose'),
+        ('classical-rs-nostrong', lambda A, **kw: pyamg.ruge_stuben_solver(
+            sp.csr_array(A), CF='RS', strength=('symmetric', {'theta': 0.9}), **kw), True, 'transpose'),
         ('air', lambda A, **kw: pyamg.air_solver(sp.csr_array(A), **kw), True, None),
         # small entries filtered: A_1 = R * filtered(A_0) * P while level 0 keeps the user's values
         ('air-filter', lambda A, **kw: pyamg.air_solver(sp.csr_array(A), filter_operator=(True, 0.2), **kw), True, None),
@@ -115,8 +124,9 @@ def structure_oracle(ctx, name, ml, Auser, Acopy, rkind, max_levels, case, filt=
                 rap = Rf.toarray()
             else:
                 alt = Rf.toarray()
-        if _nn(np.linalg.norm(Acd - rap)) > 1e-11 * (1 + np.linalg.norm(rap)) and \
-                (alt is None or _nn(np.linalg.norm(Acd - alt)) > 1e-11 * (1 + np.linalg.norm(alt))):
+        # rounding of the triple product scales with |R| |A| |P| (no absolute term: the rule is scale invariant)
+        gtol = 1e-11 * np.linalg.norm(Rd, 2) * np.linalg.norm(Ad, 2) * np.linalg.norm(Pd, 2) + 1e-300
+        if _nn(np.linalg.norm(Acd - rap)) > gtol and (alt is None or _nn(np.linalg.norm(Acd - alt)) > gtol):
             ctx.fail('not-galerkin/' + name, 'level %d: |A_c - R A P| = %.3g' % (l + 1, np.linalg.norm(Acd - rap)), case)
         if rkind == 'hermitian' and not np.array_equal(Rd, Pd.conj().T):
             ctx.fail('R-not-PH/' + name, 'level %d' % l, case)
@@ -144,6 +154,10 @@ def inputs(ctx):
     out.append(('poisson-6x6-coo', sp.coo_array(P), 'spd'))
     out.append(('poisson-6x6-bsr2', sp.bsr_array(P, blocksize=(2, 2)), 'spd'))
     out.append(('diag-12', sp.csr_array(sp.diags_array(np.arange(1.0, 13.0))), 'spd'))
+    # the same problem in other units: every entry scaled by an exact power of two far below / above one
+    base = dict((n, A) for n, A in mats)['poisson2d-6x5']
+    out.append(('poisson2d-6x5*2^-60', sp.csr_array(base * 2.0 ** -60), 'spd'))
+    out.append(('poisson2d-6x5*2^60', sp.csr_array(base * 2.0 ** 60), 'spd'))
     return out
 
 
@@ -163,6 +177,9 @@ def run(ctx):
     # corpus: F6 witnesses always run
     forced = [(c, i) for c, i in combos if (c[0] == 'sa-naive' and i[0] == 'diag-12') or
               (c[0] in ('sa', 'rootnode', 'pairwise', 'classical', 'air') and i[0] == 'poisson2d-6x5') or
+              (c[0] in ('sa', 'rootnode', 'pairwise', 'classical', 'sa-energy') and i[0].startswith('poisson2d-6x5*')) or
+              (c[0].endswith('-nostrong') and i[0] in ('poisson2d-6x5', 'diag-12')) or
+              (c[0] == 'classical-cljp' and i[0] in ('poisson2d-6x5', 'diag-12')) or
               (c[0] == 'air-filter' and i[2] == 'nonsym') or
               (c[0] in ('sa', 'sa-2cands') and i[0] in ('poisson-6x6-bsr2', 'poisson2d-6x5'))]
     rng = ctx.sub('pick')
@@ -237,6 +254,31 @@ def run(ctx):
                     ctx.case(('adaptive', iname, ml_, mc, nc, imp), len(ml.levels) >= 2)
                     ctx.count('constructor:adaptive')
                     structure_oracle(ctx, 'adaptive', ml, A, Acopy, 'hermitian', ml_, case)
+    # the MultilevelSolver constructor itself: levels handed over WITHOUT a restriction get R = P^H
+    import pyamg
+    from pyamg.multilevel import MultilevelSolver
+    for iname, A, kind in ins:
+        if kind != 'spd' or iname not in ('complex-rot-5x4', 'poisson2d-6x5', 'elasticity-3x3'):
+            continue
+        np.random.seed(ctx.seed)
+        src = pyamg.smoothed_aggregation_solver(A, max_coarse=3, max_levels=4)
+        levels = []
+        for L in src.levels:
+            N = MultilevelSolver.Level()
+            N.A = L.A.copy()
+            if hasattr(L, 'P'):
+                N.P = L.P.copy()
+            levels.append(N)
+        case = dict(constructor='MultilevelSolver(levels without R)', input=iname)
+        ctx.mark(case)
+        try:
+            ml = MultilevelSolver(levels, coarse_solver='pinv')
+        except Exception as e:   # noqa
+            ctx.fail('constructor-raises/MultilevelSolver', repr(e), case)
+            continue
+        ctx.case(('MultilevelSolver-no-R', iname), len(ml.levels) >= 2)
+        ctx.count('constructor:MultilevelSolver')
+        structure_oracle(ctx, 'MultilevelSolver', ml, A, hier.dense_of(A).copy(), 'hermitian', len(levels), case)
     ctx.corr_relations = ['level sizes of constructor(A, max_levels, max_coarse) == Hierarchy.build on the sizes observed in an unconstrained build (exact)']
     bad, errs = cq.run_cases('c04', HEADER, 'caseT', 'chk', cases, shard=1000)
     for e in errs:
